@@ -61,7 +61,8 @@ def floors(tier):
     q = tier == "quick"
     return {"monitors": {NONE_IFF: 50000, ROUTE: 20000},
             "counters": {"history_call:dist_cut": 2000, "history_call:sub_network": 1000, "history_call:all_pairs_cut": 1000,
-                         "path_request_with_output_dict": 5000},
+                         "path_request_with_output_dict": 5000, "path_request_with_cut": 3000,
+                         "history_call:failing_request": 1000},
             "classes": {"self_loop": 200, "parallel_edges": 200, "parallel_diff_weight": 100, "zero_weight": 200,
                         "orient_two_way": 200, "orient_direct": 200, "orient_reverse": 200,
                         "unreachable_pair": 200, "tie": 100, "multi_vertex_geom": 500,
@@ -234,13 +235,24 @@ def run_case(case, ctx):
         if hrng.random() < 0.5:
             src = s if hrng.random() < 0.7 else hrng.randrange(n)
             cut = hrng.choice(finite) + hrng.choice([0.0, 0.0, 0.25, -0.25]) if finite else 1.0
-            kind_h = hrng.choice(["dist_cut", "dist_cut", "dist_all", "dist_pair", "sub_network", "all_pairs_cut"])
+            kind_h = hrng.choice(["dist_cut", "dist_cut", "dist_all", "dist_pair", "sub_network", "all_pairs_cut",
+                                  "failing_request"])
             if kind_h == "dist_cut":
                 hr = M.call(net.shortest_distance, ids[src], None, cut)
             elif kind_h == "dist_all":
                 hr = M.call(net.shortest_distance, ids[src])
             elif kind_h == "dist_pair":
                 hr = M.call(net.shortest_distance, ids[src], ids[hrng.randrange(n)])
+            elif kind_h == "failing_request":
+                # error path: requests that cannot be honoured and stop inside the search (cut=None cannot be
+                # compared, an identifier the network does not know); whatever they raise is not judged
+                which = hrng.randrange(3)
+                if which == 0:
+                    hr = M.call(net.shortest_path, ids[src], ids[hrng.randrange(n)], None)
+                elif which == 1:
+                    hr = M.call(net.shortest_distance, ids[src], "no-such-node")
+                else:
+                    hr = M.call(net.shortest_distance, ids[src], None, None)
             elif kind_h == "sub_network":
                 hr = M.call(net.sub_network, ids[src], cut, "TOPOLOGIC", False)
             else:
@@ -255,7 +267,13 @@ def run_case(case, ctx):
             ctx.count("history_call:" + kind_h)
             if M.is_raised(hr):
                 ctx.count("history_call_raised:" + kind_h)
-        if use_dict and i % 2 == 0:
+        if i % 5 == 3 and D[s][t] != G.INF:
+            # the documented cut option with a cut-off that does not exclude the target: the exact distance, a
+            # little more, much more
+            cutv = D[s][t] + hrng.choice([0.0, 0.25, 1.0, D[s][t] + 3.0])
+            tr = M.call(net.shortest_path, ids[s], ids[t], cutv)
+            ctx.count("path_request_with_cut")
+        elif use_dict and i % 2 == 0:
             tr = M.call(net.shortest_path, ids[s], ids[t], 1e300, shared)
             ctx.count("path_request_with_output_dict")
         elif i % 3 == 0:
